@@ -134,6 +134,10 @@ func NumericIntDo(op NumericOp, a, b *SexpInt) Sexp {
 		return &SexpInt{Val: a.Val * b.Val}
 	case Div:
 		if a.Val%b.Val == 0 {
+			if b.Val == -1 && a.Val == math.MinInt64 {
+				// the one quotient that does not fit: 2^63
+				return &SexpFloat{Val: float64(a.Val) / float64(b.Val)}
+			}
 			return &SexpInt{Val: a.Val / b.Val}
 		} else {
 			return &SexpFloat{Val: float64(a.Val) / float64(b.Val)}
